@@ -5,7 +5,7 @@ PROPERTY = "C06"
 LEVEL = "proof"
 CONTRACT_MODULES = ["contracts.c06"]
 H = "batchie.scoring.main.ChunkedScoresHolder."
-CARRIERS = [H + "__init__", H + "add_score", H + "plate_id_with_minimum_score", H + "combine", H + "concat", "batchie.data.ScreenBase.is_observed", "batchie.scoring.main.select_next_plate", "batchie.scoring.main.score_chunk"]
+CARRIERS = [H + "__init__", H + "add_score", H + "plate_id_with_minimum_score", H + "combine", H + "concat", "batchie.data.ScreenBase.is_observed", "batchie.scoring.main.select_next_plate", "batchie.scoring.main.score_chunk", "batchie.cli.calculate_scores.main@call", "batchie.cli.select_next_plate.main@call"]
 NATIVE = "c06.py"
 TECHNIQUE = ("contract-based deductive verification (pyvc + z3) of the scores holder, score_chunk and select_next_plate; the two command lines and the "
              "content of the conditioned views by a bounded stand-in on the real functions")
@@ -26,7 +26,9 @@ EXPLANATION = (
     "no allowed plate has a strictly lower score (ghost lemmas characterise the sorted, filtered plate list; Screen.plates is used "
     "through its C14 contract). NOT PROVED (bounded stand-in native/c06.py): that the last section ends at the end of the list "
     "(sum of the section sizes), what the conditioned views (plate + batch, one experiment per condition) contain, and the two "
-    "command lines cli/calculate_scores.main, cli/select_next_plate.main.")
+    "command lines cli/calculate_scores.main, cli/select_next_plate.main - except their CALL plumbing, which is proved as regions of the "
+    "two mains: the statement calling score_chunk / select_next_plate hands over exactly the loaded screen, scores, scorer, samples, "
+    "distance matrix and policy, the generator seeded from --seed, and the command line's n_chunks / chunk_index / batch ids unchanged.")
 TRUSTED = ["pyvc symbolic executor; z3 5.1", "numpy models: isin, boolean-mask selection, argmin (first minimal index), concatenate",
            "scores treated as reals (-inf and NaN are outside the model; the bounded check exercises -inf)"]
 ASSUMPTIONS = ["abstract Scorer / PlatePolicy contracts (assumptions on implementations)", "ScreenSubset.concat / combine / filter_dataset_to_unique_treatments inside score_chunk used as: returns some view or raises ValueError, touches nothing", "cli mains: bounded native check only"]
